@@ -46,6 +46,7 @@ def strategy(tier):
         # the same object has answered ppid()/parent() before; then the caller
         # gets another parent (its parent exited: adopted by init or a
         # subreaper), and is asked again
+        pid0=st.sampled_from([False, False, True]),
         warm=st.booleans(),
         reparent=st.one_of(st.none(), st.none(), st.integers(0, n + 1)),
     )))
@@ -56,6 +57,10 @@ def make_table(case):
     is not listed', n+1 means PID 0."""
     n = case["n"]
     pids = POOL[:n] if n <= len(POOL) else list(range(1, n + 1))
+    if case.get("pid0"):
+        # PID 0 is a listed process (macOS kernel_task, FreeBSD kernel, Windows
+        # System Idle Process; the generic code must treat it like any other)
+        pids = [0] + pids[:n - 1]
     rows = []
     for i in range(n):
         j = case["ppid"][i]
